@@ -20,7 +20,7 @@ func init() {
 	register(&Prop{ID: "C11", Draw: drawC11, Check: checkC11})
 	register(&Prop{ID: "C12", Draw: drawC12, Check: checkC12})
 	register(&Prop{ID: "C17", Draw: drawC17, Check: checkC17})
-	register(&Prop{ID: "C14", Draw: drawC02, Check: checkC14})
+	register(&Prop{ID: "C14", Draw: drawC14, Check: checkC14})
 	register(&Prop{ID: "C04", Draw: drawC02, Check: checkC04})
 }
 
@@ -748,6 +748,17 @@ func checkC17(x *X, c *Case, strict bool) *Outcome {
 // ---------------------------------------------------------------------------------
 // C14: throw / recover
 
+// drawC14 draws like C02; for left-recursive grammars the plan has no faults ("the n-th
+// invocation of a block" is not stable under seed growing, and which errors survive a growth
+// attempt is C08's subject, not C14's).
+func drawC14(t *rapid.T, x *X) *Case {
+	c := drawC02(t, x)
+	if x.G.Spec.Profile == "leftrec" && c.Plan != nil {
+		c.Plan.Faults = nil
+	}
+	return c
+}
+
 func checkC14(x *X, c *Case, strict bool) *Outcome {
 	g := x.G.Spec
 	ref := refpeg.Eval(g, c.Input, refOpts(c))
@@ -783,7 +794,7 @@ func checkC14(x *X, c *Case, strict bool) *Outcome {
 	for _, pk := range livePkgs(x.G) {
 		resp, ctx := runReal(x, pk, c, safetyBudget(ref))
 		o.Evals++
-		if d := compareOutcome(ref, resp, want, true); d != "" {
+		if d := compareOutcome(ref, resp, want, g.Profile != "leftrec" || len(c.Plan.Faults) == 0); d != "" {
 			o.Viol = viol(pk, c, "match_value", d, describeRef(ref), describeResp(resp))
 			return o
 		}
